@@ -17,10 +17,10 @@ OBJ_SHIFT = 40
 
 
 class Sym:
-    __slots__ = ('t', 'n', 'lo', 'hi', 'origin')
+    __slots__ = ('t', 'n', 'lo', 'hi', 'origin', 'base')
     def __init__(self, t, n, lo=0, hi=None):
         self.t = t; self.n = n; self.lo = lo; self.hi = ((1 << n) - 1) if hi is None else hi   # unsigned interval
-        self.origin = None
+        self.origin = None; self.base = None
 
 
 def rng(v, n):
@@ -264,6 +264,9 @@ class Interp:
         size = self.L.size_align(ty)[0]
         if isinstance(ty, (StructTy, ArrTy)):
             return self.load_agg(addr, ty)
+        if isinstance(addr, Sym) and addr.base and self.mode == 'BV' and isinstance(ty, (IntTy, PtrTy)):
+            r = self.load_symbolic(addr, ty, size)
+            if r is not None: return r
         o, off = self.resolve(addr, size, 'load')
         c = o.cells.get((off, size))
         if c is None:
@@ -298,6 +301,30 @@ class Interp:
             if isinstance(c, Sym): raise Unsupported('symbolic float')
             return struct.unpack('<d', struct.pack('<Q', c))[0] if ty.k == 'double' else struct.unpack('<f', struct.pack('<I', c))[0]
         raise Unsupported('load ' + ty.key())
+
+    def load_symbolic(self, addr, ty, size, cap=512):
+        """load through a symbolic address derived from a known object: bounds obligation + ite over the in-bounds offsets (no fork)"""
+        base = addr.base; oid = base >> OBJ_SHIFT
+        if oid <= 0 or oid >= len(self.objs): return None
+        o = self.objs[oid]
+        if not o.alive or o.size > cap * 8: return None
+        obase = oid << OBJ_SHIFT
+        off = z3.simplify(addr.t - z3.BitVecVal(obase, 64))
+        inb = z3.ULE(off, o.size - size) if o.size >= size else z3.BoolVal(False)
+        if self.check(z3.Not(inb)):
+            e = Finding('out-of-bounds', 'load of %d bytes at symbolic offset into %s (size %d)' % (size, o.name, o.size)); e.model = self.solver.model(); raise e
+        self.assume(inb)
+        # feasible offsets: all positions (stride 1) that the solver does not exclude cheaply by interval
+        offs = list(range(0, o.size - size + 1))
+        if len(offs) > cap: return None
+        val = None; nbits = size * 8
+        for k in reversed(offs):
+            v = self.load(obase + k, IntTy(nbits))
+            tv = self.term(v, nbits)
+            val = tv if val is None else z3.If(off == k, tv, val)
+        r = Sym(z3.simplify(val), nbits)
+        if isinstance(ty, IntTy) and ty.n < nbits: r = self.trunc(r, nbits, ty.n)
+        return r
 
     def load_agg(self, addr, ty):
         if isinstance(ty, StructTy):
@@ -630,7 +657,9 @@ class Interp:
             else: off += i * self.L.size_align(ty.el)[0]; ty = ty.el
         if symoff is not None or isinstance(base, Sym):
             b = self.term(base, 64) + z3.BitVecVal(off & mask(64), 64)
-            return Sym(z3.simplify(b + symoff if symoff is not None else b), 64)
+            r = Sym(z3.simplify(b + symoff if symoff is not None else b), 64)
+            r.base = base.base if isinstance(base, Sym) else base       # the object the address was derived from
+            return r
         return (base + off) & mask(64)
 
     def cexpr(self, v, fr):
